@@ -248,6 +248,30 @@ Section Psi.
 
   Definition alice_expects := [KS2; KN].
   Definition bob_expects := [KS1; KH3; KN].
+  (** * Specification predicates used by the theorems *)
+
+  (** [n] subscribes to one of [common]. *)
+  Definition shares_common (n : node) (common : list topic) : Prop :=
+    exists t, In t (ntopics n) /\ In t common.
+
+  (** [(id, tr)] is a row of [p]'s address book that is either [p] itself or a non-stale node
+      subscribed to a topic both [p] and [other] subscribe to. *)
+  Definition in_scope (p other : party) (id tr : N) : Prop :=
+    exists n, In n (p_book p) /\ nid n = id /\ ntransport n = Some tr /\
+      (id = p_me p \/
+       (nstale n = false /\
+        exists t, In t (ntopics n) /\ In t (p_topics p) /\ In t (p_topics other))).
+
+  (** The same relative to a given list of "common" topics (one-sided runs). *)
+  Definition in_scope_of (p : party) (common : list topic) (id tr : N) : Prop :=
+    exists n, In n (p_book p) /\ nid n = id /\ ntransport n = Some tr /\
+      (id = p_me p \/ (nstale n = false /\ shares_common n common)).
+
+  Definition outcome_err (o : outcome) : option err :=
+    match o with
+    | Done _ => None
+    | Fail e => Some e
+    end.
 End Psi.
 
 Arguments AliceSaltHalf {topic half}.
